@@ -11,6 +11,8 @@ import (
 	"strings"
 	"sync"
 
+	"git.defalsify.org/vise.git/db"
+	memdb "git.defalsify.org/vise.git/db/mem"
 	"git.defalsify.org/vise.git/lang"
 	"git.defalsify.org/vise.git/resource"
 
@@ -218,6 +220,10 @@ func (r *Recorder) add(c Call) {
 type Shared struct {
 	App  *App
 	Code map[string][]byte
+	// UseDb: serve the application through resource.DbResource over a memdb (bytecode,
+	// templates, menu labels and static symbol contents as db entries, translated entries
+	// under their language) instead of MenuResource getters
+	UseDb bool
 }
 
 func NewShared(a *App) *Shared {
@@ -234,9 +240,172 @@ func NewShared(a *App) *Shared {
 	return s
 }
 
+// scripted computes the n-th answer of a scripted function.
+func (a *App) scripted(sym string, n int, l string, input []byte) (resource.Result, error) {
+	sp := a.Sym(sym)
+	if sp == nil || len(sp.Results) == 0 {
+		return resource.Result{}, nil
+	}
+	i := n
+	if i >= len(sp.Results) {
+		i = len(sp.Results) - 1
+	}
+	sr := sp.Results[i]
+	res := resource.Result{
+		Content:   sr.Content,
+		Status:    sr.Status,
+		FlagSet:   append([]uint32(nil), sr.FlagSet...),
+		FlagReset: append([]uint32(nil), sr.FlagReset...),
+	}
+	if l != "" {
+		if tr := a.TransFor(l); tr != nil {
+			if t, ok := tr.Statics[sym]; ok {
+				res.Content = t
+			}
+		}
+	}
+	if sr.Echo {
+		res.Content += string(input)
+	}
+	if sr.Err {
+		return res, fmt.Errorf("scripted failure of %s (call %d)", sym, n)
+	}
+	return res, nil
+}
+
+// IsStatic: a symbol whose function always returns the same plain content (one scripted
+// result, no echo, no flags, no error): in UseDb mode it is stored as a static load entry.
+func (sp *Sym) IsStatic() bool {
+	if len(sp.Results) != 1 {
+		return false
+	}
+	r := sp.Results[0]
+	return !r.Echo && !r.Err && len(r.FlagSet) == 0 && len(r.FlagReset) == 0 && r.Status == 0
+}
+
+// recording wrapper around any resource.Resource (used for the db-backed variant)
+type recResource struct {
+	inner resource.Resource
+	rec   *Recorder
+}
+
+func (r *recResource) GetCode(ctx context.Context, sym string) ([]byte, error) {
+	r.rec.add(Call{Kind: "code", Sym: sym, Lang: ctxLang(ctx), Session: ctxSession(ctx)})
+	r.rec.mu.Lock()
+	r.rec.codeCalls++
+	over := r.rec.codeCalls > r.rec.CodeBudget
+	if over {
+		r.rec.Exceeded = true
+	}
+	r.rec.mu.Unlock()
+	if over {
+		return nil, fmt.Errorf("harness: move budget exceeded")
+	}
+	return r.inner.GetCode(ctx, sym)
+}
+
+func (r *recResource) GetTemplate(ctx context.Context, sym string) (string, error) {
+	r.rec.add(Call{Kind: "template", Sym: sym, Lang: ctxLang(ctx), Session: ctxSession(ctx)})
+	return r.inner.GetTemplate(ctx, sym)
+}
+
+func (r *recResource) GetMenu(ctx context.Context, sym string) (string, error) {
+	r.rec.add(Call{Kind: "menu", Sym: sym, Lang: ctxLang(ctx), Session: ctxSession(ctx)})
+	return r.inner.GetMenu(ctx, sym)
+}
+
+func (r *recResource) FuncFor(ctx context.Context, sym string) (resource.EntryFunc, error) {
+	r.rec.add(Call{Kind: "func", Sym: sym, Lang: ctxLang(ctx), Session: ctxSession(ctx)})
+	fn, err := r.inner.FuncFor(ctx, sym)
+	if err != nil || fn == nil {
+		return fn, err
+	}
+	return func(ctx context.Context, nodeSym string, input []byte) (resource.Result, error) {
+		r.rec.mu.Lock()
+		n := r.rec.counts[sym]
+		r.rec.counts[sym] = n + 1
+		r.rec.mu.Unlock()
+		r.rec.add(Call{Kind: "call", Sym: sym, Lang: ctxLang(ctx), Session: ctxSession(ctx), Input: string(input), N: n})
+		ctx = context.WithValue(ctx, callOrdinalKey{}, n)
+		return fn(ctx, nodeSym, input)
+	}, nil
+}
+
+func (r *recResource) Close(ctx context.Context) error { return r.inner.Close(ctx) }
+
+type callOrdinalKey struct{}
+
+// dbResource builds resource.DbResource over a freshly populated memdb.
+func (s *Shared) dbResource(rec *Recorder) resource.Resource {
+	a := s.App
+	ctx := context.Background()
+	store := memdb.NewMemDb()
+	store.Connect(ctx, "")
+	store.SetLock(db.DATATYPE_BIN|db.DATATYPE_MENU|db.DATATYPE_TEMPLATE|db.DATATYPE_STATICLOAD, false)
+	put := func(typ uint8, key string, val []byte, l string) {
+		store.SetPrefix(typ)
+		if l == "" {
+			store.SetLanguage(nil)
+		} else {
+			ln, err := lang.LanguageFromCode(l)
+			if err != nil {
+				panic(err)
+			}
+			store.SetLanguage(&ln)
+		}
+		if err := store.Put(ctx, []byte(key), val); err != nil {
+			panic(err)
+		}
+		store.SetLanguage(nil)
+	}
+	for i := range a.Nodes {
+		n := &a.Nodes[i]
+		put(db.DATATYPE_BIN, n.Name, s.Code[n.Name], "")
+		put(db.DATATYPE_TEMPLATE, n.Name, []byte(n.Tpl), "")
+	}
+	for k, v := range a.Menus {
+		put(db.DATATYPE_MENU, k+"_menu", []byte(v), "")
+	}
+	for i := range a.Syms {
+		if a.Syms[i].IsStatic() {
+			put(db.DATATYPE_STATICLOAD, a.Syms[i].Name, []byte(a.Syms[i].Results[0].Content), "")
+		}
+	}
+	for _, tr := range a.Trans {
+		for k, v := range tr.Templates {
+			put(db.DATATYPE_TEMPLATE, k, []byte(v), tr.Lang)
+		}
+		for k, v := range tr.Menus {
+			put(db.DATATYPE_MENU, k+"_menu", []byte(v), tr.Lang)
+		}
+		for k, v := range tr.Statics {
+			if sp := a.Sym(k); sp != nil && sp.IsStatic() {
+				put(db.DATATYPE_STATICLOAD, k, []byte(v), tr.Lang)
+			}
+		}
+	}
+	store.SetLock(db.DATATYPE_BIN|db.DATATYPE_MENU|db.DATATYPE_TEMPLATE|db.DATATYPE_STATICLOAD, true)
+	rs := resource.NewDbResource(store).With(db.DATATYPE_STATICLOAD)
+	for i := range a.Syms {
+		sp := &a.Syms[i]
+		if sp.IsStatic() {
+			continue
+		}
+		name := sp.Name
+		rs.AddLocalFunc(name, func(ctx context.Context, nodeSym string, input []byte) (resource.Result, error) {
+			n, _ := ctx.Value(callOrdinalKey{}).(int)
+			return a.scripted(name, n, ctxLang(ctx), input)
+		})
+	}
+	return &recResource{inner: rs, rec: rec}
+}
+
 // Resource builds a resource.Resource over the shared application data that
 // records into rec.
 func (s *Shared) Resource(rec *Recorder) resource.Resource {
+	if s.UseDb {
+		return s.dbResource(rec)
+	}
 	a := s.App
 	rs := resource.NewMenuResource()
 	rs.WithCodeGetter(func(ctx context.Context, sym string) ([]byte, error) {
@@ -301,34 +470,7 @@ func (s *Shared) Resource(rec *Recorder) resource.Resource {
 			rec.mu.Unlock()
 			l := ctxLang(ctx)
 			rec.add(Call{Kind: "call", Sym: sym, Lang: l, Session: ctxSession(ctx), Input: string(input), N: n})
-			if len(sp.Results) == 0 {
-				return resource.Result{}, nil
-			}
-			i := n
-			if i >= len(sp.Results) {
-				i = len(sp.Results) - 1
-			}
-			sr := sp.Results[i]
-			res := resource.Result{
-				Content:   sr.Content,
-				Status:    sr.Status,
-				FlagSet:   append([]uint32(nil), sr.FlagSet...),
-				FlagReset: append([]uint32(nil), sr.FlagReset...),
-			}
-			if l != "" {
-				if tr := a.TransFor(l); tr != nil {
-					if t, ok := tr.Statics[sym]; ok {
-						res.Content = t
-					}
-				}
-			}
-			if sr.Echo {
-				res.Content += string(input)
-			}
-			if sr.Err {
-				return res, fmt.Errorf("scripted failure of %s (call %d)", sym, n)
-			}
-			return res, nil
+			return a.scripted(sym, n, l, input)
 		}, nil
 	})
 	return rs
